@@ -1,10 +1,12 @@
 CFG = {
  'files': ['bitstr/bitstr.go'],
+ 'runs': [{'tags': 'verif'}, {'tags': 'verif', 'race': True, 'thorough_only': True}],
  'go': {'bitstr.New': 'bitstr.New',
         'bitstr.Len': 'bitstr.Len(bitstr.New(s,from,to))',
         'bitstr.Cmp': 'bitstr.Cmp(bitstr.New(s1,f1,t1), bitstr.New(s2,f2,t2))',
         'bitstr.CmpUpto': 'bitstr.CmpUpto(a, bitstr.New(s,from,to)) + inputs unchanged',
         'bitstr.StrCmpUpto': 'bitstr.StrCmpUpto(string(a), e) and bitstr.CmpUpto(a, e), e = bitstr.New(s,from,to), + inputs unchanged',
+        'bitstr.New/decode': 'bitstr.New (its output must be a well-formed encoding that decodes to the bits of the range)',
         'bitstr.CmpUpto/viaNew': 'bitstr.CmpUpto(a, e) and bitstr.Cmp(bitstr.New(a, 0, min(8*len(a), bitstr.Len(e))), e), e = bitstr.New(s,from,to)',
         'bitstr.CmpUpto/sorted': '[bitstr.CmpUpto(k, e) for k in keys], keys sorted by bytes.Compare, e = bitstr.New(s,from,to): spec values and non-decreasing'},
  'rule': 'bit strings are always given as (s, from, to) and encoded by the real New. cases = corpus + exhaustive sweeps (New and '
@@ -29,6 +31,6 @@ CFG = {
              'what stays unproved is that no store goes through the alias of the string; '
              'every StrCmpUpto case is compared with CmpUpto on the same bytes and the inputs are checked unchanged'],
  'explanation': 'Model/Bitstr32.v makes the int32 arithmetic of New/Len explicit (wraps); Model/Bitstr.v restates New/Cmp/cmpBytes/CmpUpto/Len with the same branches; Spec/BitstrSpec.v defines the bit string '
-                'B s f t, its canonical encoding encB and uses bits_cmp (lexicographic, proper prefix first); Properties/C09.v proves '
+                'B s f t, its canonical encoding encB and uses bits_cmp (lexicographic, proper prefix first); Widened: Spec/BitstrSearchSpec.v (sorted keys, non-decreasing results), Spec/BitstrDecodeSpec.v (wf_enc = which byte strings are encodings, decB = the bit string one denotes); Proofs/Bitstr{Search,Decode,32}Proofs.v. Properties/C09.v proves '
                 'New = encB o B and, for arbitrary bit lists, Len/Cmp/CmpUpto of encodings = length / bits_cmp / truncated bits_cmp.',
 }
